@@ -17,6 +17,7 @@
 //	multi   (direct)      several cookies per request including duplicates of one name.
 //	long    (direct+wire) plaintexts up to 16 KiB (cookies beyond 4096 / 8192 bytes) issued and replayed.
 //	twokeys / conc        see conc.go (state shared between instances / between requests in flight).
+//	samename (wire)       several Set-Cookie entries of one name (different Path/Domain) via the header API.
 //	rawline (wire)        the handler writes a raw Set-Cookie line, also with attributes the cookie
 //	                      parser rejects: ciphertext only all the same.
 //
@@ -125,6 +126,7 @@ type world struct {
 	visited []kv
 	entered int
 	upSet   []setInstr        // cookies a middleware registered IN FRONT of encryptcookie puts on the response before c.Next()
+	rawAdd  bool              // write rawSet with Response().Header.Add instead of c.Set
 	rawSet  []string          // raw Set-Cookie lines the handler writes itself (c.Set), e.g. taken over from an upstream
 	failSet int               // != 0: the setting handler returns fiber.NewError(failSet) after setting the cookies
 	bind    bool              // also record the cookie binder's view (it iterates VisitAllCookie)
@@ -168,7 +170,11 @@ func newAppCfg(fc fiber.Config, key string, except []string, withMW bool, w *wor
 					Secure: s.Secure, SameSite: s.SameSite, MaxAge: s.MaxAge})
 			}
 			for _, line := range w.rawSet {
-				c.Set(fiber.HeaderSetCookie, line)
+				if w.rawAdd {
+					c.Response().Header.Add(fiber.HeaderSetCookie, line)
+				} else {
+					c.Set(fiber.HeaderSetCookie, line)
+				}
 			}
 			if w.failSet != 0 {
 				// cookies set before a handler fails still leave the server: they must be encrypted too
@@ -1012,6 +1018,172 @@ func longValue(e *ev.Env, c *ev.Case, fixedLen int) {
 }
 
 // ---------------------------------------------------------------------------------------------
+// samename family: a response may carry several cookies of ONE name (different Path / Domain). The
+// handler writes them through the header API (c.Set / Response().Header.Add append Set-Cookie
+// entries; c.Cookie would replace by name) next to ordinary cookies. Each of them is a cookie set
+// by a handler behind the middleware: ciphertext only on the wire, and sent back with its path it
+// reaches the handler with its own value. For an excepted name the lines leave as written.
+
+func wireSetAll(app *fiber.App, path string) ([]wireCookie, []byte, string) {
+	w := drive.NewWire(app)
+	out, _ := w.Serve([]byte("POST "+path+" HTTP/1.1\r\nHost: h.example\r\nContent-Length: 0\r\n\r\n"), nil)
+	rs, perr := strict.ParseAll(out, nil)
+	if perr != nil || len(rs) != 1 {
+		cls := "count"
+		if perr != nil {
+			cls = perr.Class
+		}
+		return nil, out, cls
+	}
+	var all []wireCookie
+	for _, line := range rs[0].All("Set-Cookie") {
+		sc, bad := strict.ParseSetCookie(line)
+		all = append(all, wireCookie{line: line, sc: sc, class: bad})
+	}
+	return all, out, ""
+}
+
+func sameName(e *ev.Env, c *ev.Case, fixedK int, fixedExcepted bool) {
+	r := c.R
+	keyRaw, key := genKey(r)
+	names := pickNames(r, 3)
+	dupName, ordName, exName := names[0], names[1], names[2]
+	excepted := r.Chance(1, 4)
+	if fixedK > 0 {
+		excepted = fixedExcepted
+	}
+	if excepted {
+		dupName = exName
+	}
+	k := r.Range(2, 4)
+	if fixedK > 0 {
+		k = fixedK
+	}
+	w, wTwin := &world{}, &world{}
+	w.rawAdd = r.Bool()
+	wTwin.rawAdd = w.rawAdd
+	app := newApp(key, []string{exName}, true, w)
+	twin := newApp(key, []string{exName}, false, wTwin)
+	paths := []string{"/x", "/y", "/z/w", "/q"}
+	gen.Shuffle(r, paths)
+	var vals, lines []string
+	for i := 0; i < k; i++ {
+		v := uid(r, r.Range(6, 9))
+		vals = append(vals, v)
+		l := dupName + "=" + v + "; Path=" + paths[i]
+		switch r.Intn(4) {
+		case 0:
+			l += "; Domain=h.example"
+		case 1:
+			l += "; HttpOnly"
+		case 2:
+			l = dupName + "=" + v + "; Domain=" + []string{"a", "b", "c", "d"}[i] + ".h.example; Path=" + paths[i]
+		}
+		lines = append(lines, l)
+	}
+	ordVal := uid(r, 6)
+	w.rawSet, wTwin.rawSet = lines, lines
+	w.toSet = []setInstr{{Name: ordName, Value: ordVal, Path: "/"}}
+	api := "c.Set"
+	if w.rawAdd {
+		api = "Response().Header.Add"
+	}
+	cfg := map[string]any{"key_len": len(keyRaw), "except": []string{exName}, "written_with": api, "raw_set_cookie_lines": lines,
+		"name_is_excepted": excepted}
+	var all []wireCookie
+	var out []byte
+	var bad string
+	if e.Guard(c, "issue-samename", cfg, func() { all, out, bad = wireSetAll(app, "/") }) {
+		return
+	}
+	e.Eval(1)
+	stat(e, "samename_cases", 1)
+	if bad != "" {
+		e.Violation(c, "wire|response-unparseable:"+bad, "issue response rejected by the strict parser", cfg)
+		return
+	}
+	var wl []string
+	for _, wc := range all {
+		wl = append(wl, wc.line)
+	}
+	cfg["wire_set_cookie_lines"] = wl
+	e.Nontrivial("samename", c.ID)
+	if excepted {
+		tw, _, badT := wireSetAll(twin, "/")
+		if badT != "" {
+			return
+		}
+		var got, want []string
+		for _, wc := range all {
+			if strings.HasPrefix(wc.line, dupName+"=") {
+				got = append(got, wc.line)
+			}
+		}
+		for _, wc := range tw {
+			if strings.HasPrefix(wc.line, dupName+"=") {
+				want = append(want, wc.line)
+			}
+		}
+		if !eqStrs(got, want) {
+			cfg["without_middleware"] = want
+			e.Violation(c, "except|wire-set-cookie|altered", "several Set-Cookie lines of one excepted name differ from the ones without the middleware", cfg)
+			return
+		}
+		stat(e, "samename_excepted_lines_identical", 1)
+		return
+	}
+	// ciphertext only
+	for i, v := range append(append([]string(nil), vals...), ordVal) {
+		if bytes.Contains(out, []byte(v)) || containsEncoded(out, v) {
+			cfg["plaintext_visible"] = v
+			cfg["entry_index"] = i
+			e.Violation(c, "confidentiality|wire-set-cookie|several-set-cookie-lines-of-one-name", "with several Set-Cookie entries of one name the plaintext of one of them is visible on the wire", cfg)
+			return
+		}
+	}
+	stat(e, "samename_ciphertext_only", 1)
+	// every entry, sent back with its path, reaches the handler with its own value
+	byPath := map[string]*strict.SetCookie{}
+	n := 0
+	for _, wc := range all {
+		if wc.sc != nil && wc.sc.Name == dupName {
+			byPath[wc.sc.Path] = wc.sc
+			n++
+		}
+	}
+	if n != k {
+		cfg["entries_on_the_wire"] = n
+		e.Violation(c, "wire|set-cookie-missing|several-set-cookie-lines-of-one-name", "not every Set-Cookie entry of the name reached the client as a well-formed cookie line", cfg)
+		return
+	}
+	for i := 0; i < k; i++ {
+		sc := byPath[paths[i]]
+		if sc == nil {
+			e.Violation(c, "wire|set-cookie-missing|several-set-cookie-lines-of-one-name", "a Set-Cookie entry lost its Path", cfg)
+			return
+		}
+		w.reset()
+		w.ask = []string{dupName}
+		okr := false
+		hdr := dupName + "=" + sc.Value
+		if e.Guard(c, "replay-samename", cfg, func() { okr = wireRead(app, paths[i]+"/r", hdr) }) {
+			return
+		}
+		e.Eval(1)
+		if !okr || w.entered != 1 {
+			e.Violation(c, "replay|request-failed", "replay request did not reach the handler with 200", cfg)
+			return
+		}
+		if w.got[dupName] != vals[i] {
+			cfg["entry_index"], cfg["set_value"], cfg["cookies_view"] = i, vals[i], printable(w.got[dupName])
+			e.Violation(c, "roundtrip|handler-view|several-set-cookie-lines-of-one-name", "one of several cookies of one name, sent back with its path, does not reach the handler with its own value", cfg)
+			return
+		}
+	}
+	stat(e, "samename_roundtrip_ok", 1)
+}
+
+// ---------------------------------------------------------------------------------------------
 // direct-drive helpers
 
 type rig struct {
@@ -1686,6 +1858,9 @@ func run(e *ev.Env) {
 			e.Corpus(fmt.Sprintf("rawline-odd-%d", i), func(c *ev.Case) { rawline(e, c, i) })
 		}
 	}
+	e.Corpus("samename-two-paths", func(c *ev.Case) { sameName(e, c, 2, false) })
+	e.Corpus("samename-three-paths", func(c *ev.Case) { sameName(e, c, 3, false) })
+	e.Corpus("samename-excepted", func(c *ev.Case) { sameName(e, c, 2, true) })
 	for i := range exceptedRawLines {
 		i := i
 		e.Corpus(fmt.Sprintf("rawline-excepted-%d", i), func(c *ev.Case) { rawline(e, c, len(rawAttrs)+i) })
@@ -1747,6 +1922,8 @@ func run(e *ev.Env) {
 	e.Cases("rawline", e.N(400, 20000), func(c *ev.Case) { rawline(e, c, -1) })
 
 	e.Cases("long", e.N(320, 12000), func(c *ev.Case) { longValue(e, c, 0) })
+
+	e.Cases("samename", e.N(320, 12000), func(c *ev.Case) { sameName(e, c, 0, false) })
 
 	e.Cases("twokeys", e.N(320, 20000), func(c *ev.Case) { twoKeys(e, c) })
 
